@@ -347,6 +347,7 @@ class ParseModel(object):
     def _sites(self):
         env = self.env
         self.sites = []
+        self.opaque_pushes = []
         for n in self.ps.find('CXXMemberCallExpr'):
             callee = strip(n.kids[0])
             if callee.name not in ('push', 'emplace'):
@@ -360,8 +361,10 @@ class ParseModel(object):
             if arg[0] == 'ctor' and len(arg[2]) == 1:
                 arg = arg[2][0]
             if arg[0] != 'init':
-                raise AnalysisError('%s:%s agenda push argument is not an initialiser list: %s'
-                                    % (H, n.line, show(arg)))
+                # not analysable as a record literal: remember it; the per-kind floors turn this into an
+                # ANALYSIS-ERROR unless a rule (e.g. item immutability) already explains it as a violation
+                self.opaque_pushes.append((n, arg))
+                continue
             vals = list(arg[1])
             if len(vals) > len(self.item_fields):
                 raise AnalysisError('%s:%s initialiser list longer than cell_item' % (H, n.line))
